@@ -18,7 +18,7 @@ func init() {
 		ID:    "C01",
 		Title: "WHERE keeps exactly the rows that satisfy the predicate, in source order",
 		Level: "exploration",
-		Rule: "IN-subqueries with an ORDER BY ... LIMIT of their own; constants at the ends of the 64-bit integer ranges against natively typed columns. columns named plainly, by the table's alias, without it, by the table's own name, and with names that are not plain words; string and numeric constants of one statement spelled alike; dual as a one-row source; a share of the cases under IdomaticArrays; tables of 2050..5000 rows every 400th case; phase 'reexec': one Query executed four times while a variable read by the predicate (also inside an IN-subquery) or rows of the document change, judged against a freshly built query. a share of the numeric columns holds natively typed Go integers (int, int64, int32, uint64); IN-subqueries may be correlated to the outer row through the `<-` marker. each case = a random table (0..12 rows quick / 0..40 thorough, typed columns, duplicated values, hostile strings) x a random predicate tree " +
+		Rule: "constants written with leading zeros; a share of the cases under PostgresEscapingDialect; the table under a dotted path with columns qualified by its last part or the whole path. IN-subqueries with an ORDER BY ... LIMIT of their own; constants at the ends of the 64-bit integer ranges against natively typed columns. columns named plainly, by the table's alias, without it, by the table's own name, and with names that are not plain words; string and numeric constants of one statement spelled alike; dual as a one-row source; a share of the cases under IdomaticArrays; tables of 2050..5000 rows every 400th case; phase 'reexec': one Query executed four times while a variable read by the predicate (also inside an IN-subquery) or rows of the document change, judged against a freshly built query. a share of the numeric columns holds natively typed Go integers (int, int64, int32, uint64); IN-subqueries may be correlated to the outer row through the `<-` marker. each case = a random table (0..12 rows quick / 0..40 thorough, typed columns, duplicated values, hostile strings) x a random predicate tree " +
 			"(depth 0..4 quick / 0..7 thorough over = != < <= > >=, AND/OR/NOT, [NOT] IN, IN (subquery), [NOT] BETWEEN, [NOT] LIKE, IS [NOT] NULL/TRUE/FALSE), executed by the real " +
 			"genql.New+Exec and judged against an independent reference filter (rid sequence and whole-row equality); the first cases of every run force each grammar feature once; " +
 			"phase 'laws' checks the three derived laws as metamorphic relations between real executions. A case is non-trivial when the predicate keeps at least one row and rejects at least one; " +
